@@ -2,7 +2,7 @@
    Only property theorems here, each closed by `exact <lemma>`; proofs are in Proofs*.v; Link.v ties the character
    test of valid_sid to the source.  `fresh` is the random source (i-th identifier); the theorems that need it assume
    that it yields well-formed (fresh_ok) resp. pairwise distinct (fresh_inj) identifiers. *)
-From CppcmsV Require Import Base.Tac C06.Defs C06.Proofs C06.ProofsNum C06.ProofsMap C06.Proofs2 C06.Proofs3 C06.Proofs4 C06.Proofs5 C06.Proofs6 C06.Proofs7 C06.Proofs8 C06.Proofs10 C06.Proofs9.
+From CppcmsV Require Import Base.Tac C06.Defs C06.Proofs C06.ProofsNum C06.ProofsMap C06.Proofs2 C06.Proofs3 C06.Proofs4 C06.Proofs5 C06.Proofs6 C06.Proofs7 C06.Proofs8 C06.Proofs10 C06.Proofs9 C06.Proofs11.
 Local Open Scope N_scope.
 
 (* ------------------------------------------------------------------------------------------------------------
@@ -269,6 +269,42 @@ Theorem session_refines_spec_server_reachable : forall fresh, (forall m n, fresh
 Proof. exact end_to_end_server_reachable. Qed.
 Print Assumptions session_refines_spec_server_reachable.
 
+(* all three locations at once.  server_side: location server, or location both with on_server / a payload above
+   client_size_limit; client_side: location client, or location both otherwise.  Which side the session was on BEFORE r1
+   does not matter, so switches client <-> server of the dual back-end are covered: r1 may load from the cookie and save
+   to the server or the other way round. *)
+Theorem session_refines_spec_stored_on_server : forall fresh, (forall m n, fresh m = fresh n -> m = n) ->
+  forall c w b script1 s' blob ex l script2,
+  server_side c s' blob ->
+  sid_ok (fresh (w_next w)) = true ->
+  store_issued fresh w -> jars_not_future fresh w ->
+  (forall b' id, b' <> b -> valid_sid (j_sess (get_jar w b')) = Some id -> valid_sid (j_sess (get_jar w b)) <> Some id) ->
+  req_state c w b script1 = Some s' ->
+  forallb op_keeps script1 = true ->
+  dempty (s_data s') = false -> skipped (w_now w) s' = false -> save_data (s_data s') = Some blob ->
+  age_exp (w_now w) (cookie_age (w_now w) s' (newsess_of s')) = Some ex ->
+  let w1 := fst (request fresh c w b script1) in
+  (forall id, valid_sid (j_sess (get_jar w1 b)) = Some id -> Forall (foreign_step b id) l) ->
+  let w2 := fst (run fresh c w1 l) in
+  (w_now w2 <= session_age (w_now w) s' (newsess_of s'))%Z -> exp_live (w_now w2) ex = true ->
+  o_loaded (snd (request fresh c w2 b script2)) = Some (true, s_data s', s_tval s', s_how s', s_onsrv s').
+Proof. exact end_to_end_stored_on_server. Qed.
+Print Assumptions session_refines_spec_stored_on_server.
+
+Theorem session_refines_spec_stored_in_cookie : forall fresh c w b script1 s' blob ex l script2,
+  client_side c s' blob ->
+  req_state c w b script1 = Some s' ->
+  forallb op_keeps script1 = true ->
+  dempty (s_data s') = false -> skipped (w_now w) s' = false -> save_data (s_data s') = Some blob ->
+  age_exp (w_now w) (cookie_age (w_now w) s' (newsess_of s')) = Some ex ->
+  let w1 := fst (request fresh c w b script1) in
+  Forall (not_on b) l ->
+  let w2 := fst (run fresh c w1 l) in
+  (w_now w2 <= session_age (w_now w) s' (newsess_of s'))%Z -> exp_live (w_now w2) ex = true ->
+  o_loaded (snd (request fresh c w2 b script2)) = Some (true, s_data s', s_tval s', s_how s', s_onsrv s').
+Proof. exact end_to_end_stored_in_cookie. Qed.
+Print Assumptions session_refines_spec_stored_in_cookie.
+
 Theorem decimal_settings_roundtrip : forall z, parse_Z (show_Z z) = Some z.
 Proof. exact parse_show_Z. Qed.
 Print Assumptions decimal_settings_roundtrip.
@@ -355,6 +391,36 @@ Proof.
   eapply (session_refines_spec_client ex_fresh (mkcfg 1 0 100%Z 64) ex_w0 0%nat [Oset [97] [49]; Oexpose [97]; Oage 50%Z] s' _ (EAt 1000050%Z));
     try reflexivity.
   repeat constructor; discriminate.
+Qed.
+
+(* the dual back-end: a session that lives in the cookie is moved to the server by a payload above the limit (r1), is read
+   back from the server, and moved back to the cookie (r1 of the second example) *)
+Example dual_switch_nonvacuous :
+  let c := mkcfg 2 1 100%Z 8 in
+  let wa := fst (request ex_fresh c ex_w0 0 [Oset [97] [49]]) in                    (* 6 bytes: in the cookie *)
+  j_sess (get_jar wa 0) = Some (CEnc 1000100%Z [1;8;0;0;97;49], EAt 1000100%Z) /\
+  o_loaded (snd (request ex_fresh c (fst (run ex_fresh c (fst (request ex_fresh c wa 0 [Oset [98] [50; 50; 50; 50; 50; 50]])) [StT 5%Z; StR 1 [Oset [97] [57]]])) 0 []))
+    = Some (true, [([97], ([49], false)); ([98], ([50; 50; 50; 50; 50; 50], false))], 100%Z, 1%Z, false) /\
+  let wb := fst (request ex_fresh c wa 0 [Oset [98] [50; 50; 50; 50; 50; 50]]) in   (* 17 bytes: on the server *)
+  o_loaded (snd (request ex_fresh c (fst (run ex_fresh c (fst (request ex_fresh c wb 0 [Oerase [98]])) [StT 5%Z; StAhist 1 1 Mid; StR 1 [Oclear]])) 0 []))
+    = Some (true, [([97], ([49], false))], 100%Z, 1%Z, false).
+Proof.
+  cbv zeta. split; [vm_compute; reflexivity|]. split.
+  - pose (s' := mksess [([97], ([49], false)); ([98], ([50; 50; 50; 50; 50; 50], false))] [([97], ([49], false))] 100%Z 1%Z 1000100%Z false false).
+    eapply (session_refines_spec_stored_on_server ex_fresh ex_fresh_inj (mkcfg 2 1 100%Z 8) _ 0%nat [Oset [98] [50; 50; 50; 50; 50; 50]] s' _ (EAt 1000100%Z));
+      try reflexivity.
+    + right. split; reflexivity.
+    + intros id H. vm_compute in H. contradiction H. reflexivity.
+    + intros b id H. vm_compute in H. destruct b as [|[|b]]; discriminate H.
+    + intros b' id Hb H. vm_compute. discriminate.
+    + intros id H. vm_compute in H. injection H as <-. repeat constructor; try discriminate; try lia.
+    + vm_compute. discriminate.
+  - pose (s' := mksess [([97], ([49], false))] [([97], ([49], false)); ([98], ([50; 50; 50; 50; 50; 50], false))] 100%Z 1%Z 1000100%Z false false).
+    eapply (session_refines_spec_stored_in_cookie ex_fresh (mkcfg 2 1 100%Z 8) _ 0%nat [Oerase [98]] s' _ (EAt 1000100%Z));
+      try reflexivity.
+    + right. split; reflexivity.
+    + repeat constructor; discriminate.
+    + vm_compute. discriminate.
 Qed.
 
 Example save_nonvacuous :
